@@ -16,6 +16,7 @@ import (
 
 	"github.com/titpetric/vuego"
 	"github.com/titpetric/vuego/zverif/vsync"
+	"golang.org/x/net/html"
 
 	"verif/engine/core"
 	"verif/engine/sched"
@@ -299,13 +300,60 @@ func c09Build(driver string, threads int) [][]c09Call {
 			i := i
 			out[i] = []c09Call{mk("less", func(b *bytes.Buffer) error { return t.Load("h18_page.vuego").Fill(tdata(i)).Render(bg, b) })}
 		}
+	case "H19-processor-with-per-render-state":
+		// a node processor that numbers elements: the count lives in the instance New() hands out
+		// for each render, in the pre-processing and in the post-processing step
+		pf := Files{"h19_page.vuego": `<h2>a</h2><p>{{ canary }}</p><h2>b</h2><template include="h19_c.vuego"></template>`, "h19_c.vuego": `<h2>c</h2>`}
+		t := vuego.NewFS(pf.FS(), vuego.WithProcessor(&c09NumProc{}))
+		v := vuego.NewVue(pf.FS())
+		v.RegisterNodeProcessor(&c09NumProc{})
+		for i := range out {
+			i := i
+			out[i] = []c09Call{mk("tpl", func(b *bytes.Buffer) error { return t.Load("h19_page.vuego").Fill(tdata(i)).Render(bg, b) }),
+				mk("vue", func(b *bytes.Buffer) error { return v.Render(b, "h19_page.vuego", tdata(i)) })}
+		}
 	default:
 		panic("unknown driver " + driver)
 	}
 	return out
 }
 
-var c09Drivers = []string{"H1-cold-cache-same-file", "H2-shared-caller-map", "H3-v-once-warm", "H4-unseen-paths-and-expressions", "H4b-path-cache-at-limit", "H5-include-slots-layout-filters", "H6-files-edited-underneath", "H7-renderstring-on-new", "H8-funcs-and-errors", "H9-components-with-v-once-and-wrappers", "H10-same-page-different-data", "H11-front-matter-page-with-template-variables-vue", "H12-front-matter-page-with-template-variables-load", "H13-attribute-slices-with-spare-capacity-vue", "H14-attribute-slices-with-spare-capacity-load", "H15-layout-page-with-v-once-and-shorthand", "H16-layout-page-warm", "H17-shared-defaults-plus-assign", "H18-less-processor"}
+// c09NumProc numbers the <h2> elements it is shown: id="sec-N" before evaluation, data-n="N" after.
+type c09NumProc struct{ pre, post int }
+
+func (p *c09NumProc) New() vuego.NodeProcessor { return &c09NumProc{} }
+func (p *c09NumProc) PreProcess(nodes []*html.Node) error {
+	c09WalkH2(nodes, func(n *html.Node) {
+		p.pre++
+		n.Attr = append(n.Attr, html.Attribute{Key: "id", Val: fmt.Sprintf("sec-%d", p.pre)})
+	})
+	return nil
+}
+func (p *c09NumProc) PostProcess(nodes []*html.Node) error {
+	c09WalkH2(nodes, func(n *html.Node) {
+		p.post++
+		n.Attr = append(n.Attr, html.Attribute{Key: "data-n", Val: fmt.Sprint(p.post)})
+	})
+	return nil
+}
+
+func c09WalkH2(nodes []*html.Node, f func(*html.Node)) {
+	for _, n := range nodes {
+		if n == nil {
+			continue
+		}
+		if n.Type == html.ElementNode && n.Data == "h2" {
+			f(n)
+		}
+		var kids []*html.Node
+		for c := n.FirstChild; c != nil; c = c.NextSibling {
+			kids = append(kids, c)
+		}
+		c09WalkH2(kids, f)
+	}
+}
+
+var c09Drivers = []string{"H1-cold-cache-same-file", "H2-shared-caller-map", "H3-v-once-warm", "H4-unseen-paths-and-expressions", "H4b-path-cache-at-limit", "H5-include-slots-layout-filters", "H6-files-edited-underneath", "H7-renderstring-on-new", "H8-funcs-and-errors", "H9-components-with-v-once-and-wrappers", "H10-same-page-different-data", "H11-front-matter-page-with-template-variables-vue", "H12-front-matter-page-with-template-variables-load", "H13-attribute-slices-with-spare-capacity-vue", "H14-attribute-slices-with-spare-capacity-load", "H15-layout-page-with-v-once-and-shorthand", "H16-layout-page-warm", "H17-shared-defaults-plus-assign", "H18-less-processor", "H19-processor-with-per-render-state"}
 
 // c09Reset puts every piece of process-global state the engine has into its initial state.
 func c09Reset(driver string) {
